@@ -603,7 +603,8 @@ def build(repo, sidecar_path, extra_spec=None, reach=False):
             # same splice check as a whole function.
             mode, anchor, until = item.fragment
             fbo = body_open(raw, 0)
-            a0, a1 = _nth(raw, anchor, 1, where)
+            # an anchor written `re:<regex>` is a regular expression (the block opened by the LAST `{` of the match)
+            a0, a1 = _nth(raw, re.compile(anchor[3:]) if anchor.startswith('re:') else anchor, 1, where)
             if mode == 'block-after':
                 ob = raw.rindex('{', a0, a1)
                 cb = match_close(raw, ob)
